@@ -599,4 +599,58 @@ theorem genDecode_eq (enc : Bytes) (n mode : Nat) (half : UInt32) (rot : Nat) :
   · rw [if_neg hv]
     simp [hv]
 
+/-! ## metadata validation -/
+
+theorem metaValid_eq_gen (proto mode : Nat) (half : UInt32) (rot pl el : Nat) :
+    validateLowEntropyDataAckMetadata proto mode half rot pl el = metaValid proto mode half.toNat rot pl el := by
+  unfold validateLowEntropyDataAckMetadata metaValid
+  rw [validate_eq, encodedLen_eq]
+  have hproto : (Gen.Arith.isLowEntropyProtocol (proto : Int) = true) ↔ (proto = 10 ∨ proto = 11) := by
+    unfold Gen.Arith.isLowEntropyProtocol
+    simp only [decide_eq_true_eq]
+    have h1 : Gen.dataClientToServerLowEntropy = 10 := rfl
+    have h2 : Gen.dataServerToClientLowEntropy = 11 := rfl
+    rw [h1, h2]; omega
+  have hpdu : (Gen.maxPDU : Int) = 32768 := rfl
+  have hcl : (Gen.lowEntropyChunkLen : Int) = 8 := rfl
+  rw [hpdu, hcl, Int.tmod_eq_emod_of_nonneg (by omega)]
+  by_cases hp : proto = 10 ∨ proto = 11
+  · have hp' : (proto == 10 || proto == 11) = true := by
+      rcases hp with h | h <;> simp [h]
+    rw [if_neg (by simpa using hproto.2 hp), hp']
+    by_cases he : el ≤ 32768
+    · rw [if_neg (by omega)]
+      by_cases h8 : pl % 8 = 0
+      · rw [if_neg (by omega)]
+        by_cases hv : validParams mode half.toNat rot = true
+        · obtain ⟨c, k, hc, hk⟩ := validParams_modes _ _ _ hv
+          rw [if_pos hv, hc, hk]
+          simp only [hv, Bool.and_true, Bool.true_and]
+          by_cases h0 : el = 0
+          · subst h0
+            by_cases hpl : pl = 0
+            · subst hpl; simp [he]
+            · simp [hpl, he]
+          · rw [if_neg (by omega)]
+            cases hel : encodedLen el mode with
+            | none => simp [h0]
+            | some x =>
+              simp only [Option.map_some, Int.ofNat_eq_natCast]
+              by_cases hx : pl = x
+              · subst hx; simp [he, h8, h0]
+              · rw [if_pos (by omega)]; simp [h0, hx]
+        · rw [if_neg hv]
+          have : validParams mode half.toNat rot = false := by simpa using hv
+          simp [this]
+      · rw [if_pos (by omega)]
+        have : (pl % 8 == 0) = false := by simpa using h8
+        simp [this]
+    · rw [if_pos (by omega)]
+      have : decide (el ≤ 32768) = false := by simpa using he
+      simp [this]
+  · have hp' : (proto == 10 || proto == 11) = false := by
+      rw [Bool.eq_false_iff]; intro h; apply hp; simpa using h
+    rw [if_pos (by intro h; exact hp (hproto.1 h)), hp']
+    simp
+
 end Mieru.LowEntropy
